@@ -1,7 +1,7 @@
 (* C13 — property theorems only.  Each is closed by [exact <lemma>] and followed by
    Print Assumptions; the statements are pinned here so they cannot be quietly weakened. *)
 From Coq Require Import Permutation.
-From FB Require Import C13.Model C13.Theory C13.Theory2.
+From FB Require Import C13.Model C13.Theory C13.Theory2 C13.Theory3.
 
 (* merge_preserve_order terminates: the fuel handed over is always enough *)
 Theorem C13_mpo_fuel_suffices : forall (A : Type) (eqb : A -> A -> bool), eqb_ok eqb ->
@@ -42,14 +42,54 @@ Theorem C13_compatible_iff_common_supersequence : forall (A : Type) (eqb : A -> 
 Proof. exact @compatible_iff_common_supersequence. Qed.
 Print Assumptions C13_compatible_iff_common_supersequence.
 
+(* ARBITRARY lists (duplicates allowed, any relative order): the function terminates within its fuel,
+   the result is a permutation of a ++ (b minus a) — an element of [a] occurs as often as in [a], an
+   element only [b] has as often as in [b] —, and the first list and the b-only elements of the second
+   are subsequences of it *)
+Theorem C13_mpo_any_lists : forall (A : Type) (eqb : A -> A -> bool), eqb_ok eqb ->
+  forall a b : list A, exists r, mpo_res eqb a b = Ok r /\
+    Permutation r (a ++ filter (fun y => negb (memb eqb y a)) b) /\
+    (forall x, In x r <-> In x a \/ In x b) /\
+    subseq a r /\ subseq (filter (fun y => negb (memb eqb y a)) b) r.
+Proof. exact @mpo_any_lists. Qed.
+Print Assumptions C13_mpo_any_lists.
+
+(* duplicate-free lists: the second list's order is kept exactly when the two orders are compatible *)
+Theorem C13_mpo_b_order_iff_compatible : forall (A : Type) (eqb : A -> A -> bool), eqb_ok eqb ->
+  forall a b r : list A, NoDup a -> NoDup b -> mpo_res eqb a b = Ok r ->
+  (subseq b r <-> filter (fun x => memb eqb x b) a = filter (fun y => memb eqb y a) b).
+Proof. exact @mpo_b_order_iff_compatible. Qed.
+Print Assumptions C13_mpo_b_order_iff_compatible.
+
+(* scrambled orders (shared elements in opposite relative order): still every element exactly once,
+   the first list's order and the order of the b-only elements kept; the second list's order is not *)
+Theorem C13_mpo_scrambled : forall (A : Type) (eqb : A -> A -> bool), eqb_ok eqb ->
+  forall a b r : list A, NoDup a -> NoDup b ->
+  filter (fun x => memb eqb x b) a <> filter (fun y => memb eqb y a) b -> mpo_res eqb a b = Ok r ->
+  NoDup r /\ (forall x, In x r <-> In x a \/ In x b) /\ subseq a r /\
+  subseq (filter (fun y => negb (memb eqb y a)) b) r /\ ~ subseq b r.
+Proof. exact @mpo_scrambled. Qed.
+Print Assumptions C13_mpo_scrambled.
+
+(* the exact shape of the result, for arbitrary lists: the loop consumes [ra] and [rb] into an
+   interleaving [m] (Theory.Merged: shared elements once, one-sided ones in place), stops where no
+   inner loop can take anything (Theory.stuck: nothing left, or the heads differ and each occurs in
+   the other list), then the rest of [a] and the b-only rest of [b] follow *)
+Theorem C13_mpo_shape : forall (A : Type) (eqb : A -> A -> bool), eqb_ok eqb ->
+  forall a b r : list A, mpo_res eqb a b = Ok r ->
+  exists ra rb af bf m, a = ra ++ af /\ b = rb ++ bf /\ Merged a b ra rb m /\ stuck eqb a b af bf /\
+                        r = m ++ af ++ filter (fun y => negb (memb eqb y a)) bf.
+Proof. exact @mpo_shape. Qed.
+Print Assumptions C13_mpo_shape.
+
 (* ------------------------------------------------------------------------------------------
    members of a class both sides have, differing (fields and methods alike) *)
 
 (* every member key of either side exactly once; both key orders kept when compatible (the
    client's always); a member only one side has is that side's member plus the side mark; a member
    both sides have is there unmarked (the client's version); nothing else is there *)
-Theorem C13_members_marked : forall cf sf ms : list member,
-  NoDup (map mkey cf) -> NoDup (map mkey sf) -> merge_members cf sf = OK ms ->
+Theorem C13_members_marked : forall (tbl : table) (cf sf ms : list member), all_client tbl = true ->
+  NoDup (map mkey cf) -> NoDup (map mkey sf) -> merge_members tbl cf sf = OK ms ->
   let kc := map mkey cf in let ks := map mkey sf in let km := map mkey ms in
   NoDup km /\ Permutation km (kc ++ filter (fun y => negb (memb key_eqb y kc)) ks) /\
   subseq kc km /\
@@ -71,11 +111,13 @@ Theorem C13_mark_member : forall m sd,
 Proof. exact (fun m sd => eq_refl). Qed.
 Print Assumptions C13_mark_member.
 
-(* the member merge succeeds whenever shared members agree in the deprecated/synthetic flags
-   (the Rust code asserts that) *)
-Theorem C13_merge_members_ok : forall cf sf,
+(* the member merge succeeds whenever shared members agree in the deprecated/synthetic flags (the
+   Rust code asserts that) and in every opaque field whose row of the `inner` literal is
+   merge_from_client / merge_eq (Theory2.rest_agree; no such row today) *)
+Theorem C13_merge_members_ok : forall tbl cf sf, scalar_table tbl = true ->
   (forall ec es, In ec cf -> In es sf -> mkey ec = mkey es -> m_depr ec = m_depr es /\ m_synth ec = m_synth es) ->
-  exists ms, merge_members cf sf = OK ms.
+  (forall ec es, In ec cf -> In es sf -> mkey ec = mkey es -> rest_agree tbl (m_rest ec) (m_rest es)) ->
+  exists ms, merge_members tbl cf sf = OK ms.
 Proof. exact merge_members_ok. Qed.
 Print Assumptions C13_merge_members_ok.
 
@@ -84,7 +126,9 @@ Print Assumptions C13_merge_members_ok.
    methods by merge_members (above); no class-level side mark; the client's invisible annotations
    plus one @EnvironmentInterfaces for the one-sided interfaces; PermittedSubclasses absent iff
    absent on both sides, else both lists merged by merge_preserve_order; the record components
-   (c_rec) and everything else (c_rest) the client's.  (deprecated/synthetic flags and inner
+   (c_rec) the client's; every other field of duke's ClassFile (c_rest) row by row as the
+   regenerated table of the struct literal says (C13_class_frame; the client's when the table says
+   `client.f` throughout: C13_class_rest_client).  (deprecated/synthetic flags and inner
    classes: see C13_class_merge_ok and the model; they are equal on both sides resp. a keyed union) *)
 Theorem C13_class_merge : forall c s m, class_merge c s = OK m ->
   (c_version m = c_version c /\ c_version c = c_version s) /\
@@ -92,8 +136,8 @@ Theorem C13_class_merge : forall c s m, class_merge c s = OK m ->
   (c_name m = c_name c /\ c_name c = c_name s) /\
   c_super m = c_super c /\
   mpo_res str_eqb (c_itfs c) (c_itfs s) = Ok (c_itfs m) /\
-  merge_members (c_fields c) (c_fields s) = OK (c_fields m) /\
-  merge_members (c_methods c) (c_methods s) = OK (c_methods m) /\
+  merge_members field_rest_table (c_fields c) (c_fields s) = OK (c_fields m) /\
+  merge_members method_rest_table (c_methods c) (c_methods s) = OK (c_methods m) /\
   c_vis m = c_vis c /\
   c_inv m = c_inv c ++ match itf_marks (c_itfs m) (c_itfs c) (c_itfs s) with [] => [] | marks => [AItfs marks] end /\
   match c_perm c, c_perm s with
@@ -101,7 +145,7 @@ Theorem C13_class_merge : forall c s m, class_merge c s = OK m ->
   | pc, ps => exists l, c_perm m = Some l /\ mpo_res str_eqb (unwrap_or_default pc) (unwrap_or_default ps) = Ok l
   end /\
   c_rec m = c_rec c /\
-  c_rest m = c_rest c.
+  merge_rest class_rest_table (c_rest c) (c_rest s) = OK (c_rest m).
 Proof. exact class_merge_spelled. Qed.
 Print Assumptions C13_class_merge.
 
@@ -119,13 +163,16 @@ Proof. exact permitted_merged. Qed.
 Print Assumptions C13_permitted_merged.
 
 (* inside the hypotheses the class merge returns a class: the two versions agree in version,
-   access, name, super class, deprecated/synthetic flags (also of shared members) and in the
-   records of shared inner classes — everything else may differ *)
+   access, name, super class, deprecated/synthetic flags (also of shared members), in the records
+   of shared inner classes, and in every opaque field whose row of the regenerated table asserts
+   equality (none today) — everything else may differ *)
 Theorem C13_class_merge_ok : forall c s,
   c_version c = c_version s /\ c_access c = c_access s /\ c_name c = c_name s /\ c_super c = c_super s /\
   c_depr c = c_depr s /\ c_synth c = c_synth s /\
   flags_agree (c_fields c) (c_fields s) /\ flags_agree (c_methods c) (c_methods s) /\
-  inner_agree (unwrap_or_default (c_inner c)) (unwrap_or_default (c_inner s)) ->
+  inner_agree (unwrap_or_default (c_inner c)) (unwrap_or_default (c_inner s)) /\
+  rests_agree field_rest_table (c_fields c) (c_fields s) /\ rests_agree method_rest_table (c_methods c) (c_methods s) /\
+  rest_agree class_rest_table (c_rest c) (c_rest s) ->
   exists m, class_merge c s = OK m.
 Proof. exact class_merge_ok. Qed.
 Print Assumptions C13_class_merge_ok.
@@ -143,6 +190,171 @@ Theorem C13_interfaces_marked : forall c s m,
     c_inv m = c_inv c ++ match marks with [] => [] | _ => [AItfs marks] end.
 Proof. exact interfaces_marked. Qed.
 Print Assumptions C13_interfaces_marked.
+
+(* ------------------------------------------------------------------------------------------
+   the struct literals of class_merger_merge, field by field (tables regenerated from merge.rs and
+   duke's struct definitions by translate/c13_merge_table.py on every check) *)
+
+(* the regenerated tables cover every field of duke's ClassFile / Field / Method exactly once; the
+   fields the model spells out carry the actions the model implements; members are keyed by (name,
+   descriptor) and marked in runtime_invisible_annotations, one-sided classes in
+   runtime_visible_annotations; each of the 12 + 6 + 9 remaining fields is an opaque component with
+   a scalar action (client.f | server.f | merge_from_client | merge_eq) *)
+Theorem C13_tables_checked : tables_checked.
+Proof. exact tables_checked_holds. Qed.
+Print Assumptions C13_tables_checked.
+
+(* the opaque components of a merge, row by row, for ANY table: as many as the client has; row i is
+   the client's value (client.f), the server's (server.f), or the client's with both sides equal
+   (merge_from_client / merge_eq); nothing else returns a value *)
+Theorem C13_merge_rest_frame : forall tbl c s r, merge_rest tbl c s = OK r ->
+  length r = length c /\
+  forall i x, nth_error c i = Some x ->
+    let y := match nth_error s i with Some y => y | None => x end in
+    match row_act tbl i with
+    | AClient => nth_error r i = Some x
+    | AServer => nth_error r i = Some y
+    | AAssertEq | ABailEq => nth_error r i = Some x /\ x = y
+    | _ => False
+    end.
+Proof. exact merge_rest_frame. Qed.
+Print Assumptions C13_merge_rest_frame.
+
+(* the merged class over the regenerated table of the ClassFile literal: every field the model keeps
+   opaque (enclosing method, signature, source file, source debug extension, type annotations, module
+   data, nest host and members, unknown attributes) is taken whole from the side its row names; what
+   both versions agree on is what the merged class says *)
+Theorem C13_class_frame : forall c s m, class_merge c s = OK m ->
+  length (c_rest m) = length (c_rest c) /\
+  (forall i x, nth_error (c_rest c) i = Some x ->
+     let y := match nth_error (c_rest s) i with Some y => y | None => x end in
+     match row_act class_rest_table i with
+     | AClient => nth_error (c_rest m) i = Some x
+     | AServer => nth_error (c_rest m) i = Some y
+     | AAssertEq | ABailEq => nth_error (c_rest m) i = Some x /\ x = y
+     | _ => False
+     end) /\
+  (forall i x, nth_error (c_rest c) i = Some x -> nth_error (c_rest s) i = Some x -> nth_error (c_rest m) i = Some x).
+Proof. exact class_frame. Qed.
+Print Assumptions C13_class_frame.
+
+(* tables that say `client.f` throughout (today's do — C13/MergeGen.v — but which side an opaque field
+   comes from is not part of the property, so this is a hypothesis, not an obligation): the opaque
+   components are the client's *)
+Theorem C13_rest_all_client : forall tbl c s, all_client tbl = true -> merge_rest tbl c s = OK c.
+Proof. exact merge_rest_all_client. Qed.
+Print Assumptions C13_rest_all_client.
+
+Theorem C13_class_rest_client : forall c s m,
+  all_client class_rest_table = true -> class_merge c s = OK m -> c_rest m = c_rest c.
+Proof. exact class_rest_client. Qed.
+Print Assumptions C13_class_rest_client.
+
+(* a member both sides have in different versions, over the table of its `inner` literal *)
+Theorem C13_member_frame : forall tbl ec es m, merge_member tbl ec es = OK m ->
+  m_name m = m_name ec /\ m_desc m = m_desc ec /\ m_access m = m_access ec /\
+  (m_depr m = m_depr ec /\ m_depr ec = m_depr es) /\ (m_synth m = m_synth ec /\ m_synth ec = m_synth es) /\
+  m_inv m = m_inv ec /\
+  length (m_rest m) = length (m_rest ec) /\
+  (forall i x, nth_error (m_rest ec) i = Some x ->
+     let y := match nth_error (m_rest es) i with Some y => y | None => x end in
+     match row_act tbl i with
+     | AClient => nth_error (m_rest m) i = Some x
+     | AServer => nth_error (m_rest m) i = Some y
+     | AAssertEq | ABailEq => nth_error (m_rest m) i = Some x /\ x = y
+     | _ => False
+     end) /\
+  (forall i x, nth_error (m_rest ec) i = Some x -> nth_error (m_rest es) i = Some x -> nth_error (m_rest m) i = Some x).
+Proof. exact member_frame. Qed.
+Print Assumptions C13_member_frame.
+
+(* every member of the merged list, for ANY table: a one-sided member with its mark, a member equal
+   on both sides as it is, or the `inner` literal's result for the two versions *)
+Theorem C13_shared_member_merged : forall tbl cf sf ms,
+  NoDup (map mkey cf) -> NoDup (map mkey sf) -> merge_members tbl cf sf = OK ms ->
+  forall m, In m ms ->
+    (exists ec, In ec cf /\ ~ In (mkey ec) (map mkey sf) /\ m = mark_member ec Client) \/
+    (exists es, In es sf /\ ~ In (mkey es) (map mkey cf) /\ m = mark_member es Server) \/
+    (exists ec es, In ec cf /\ In es sf /\ mkey ec = mkey es /\ (m = ec /\ ec = es \/ merge_member tbl ec es = OK m)).
+Proof. exact shared_member_merged. Qed.
+Print Assumptions C13_shared_member_merged.
+
+(* the class-level side mark: one @Environment(side) appended to the visible annotations, every
+   other component of the class untouched *)
+Theorem C13_mark_class_frame : forall p sd,
+  mark_class p sd = mkClass (c_version p) (c_access p) (c_name p) (c_super p) (c_itfs p) (c_fields p) (c_methods p)
+    (c_depr p) (c_synth p) (c_inner p) (c_vis p ++ [AEnv sd]) (c_inv p) (c_perm p) (c_rec p) (c_rest p).
+Proof. exact mark_class_frame. Qed.
+Print Assumptions C13_mark_class_frame.
+
+(* ------------------------------------------------------------------------------------------
+   entry names: the skip rules as the code decides them (predicate trees regenerated from the
+   conditions in fn merge) *)
+
+(* today: META-INF/ prefix and .SF or .RSA suffix; .class suffix, no net/minecraft/ prefix, a '/' *)
+Theorem C13_rules_today :
+  g_signature_rule = PAnd (PStarts s_metainf) (POr (PEnds s_SF) (PEnds s_RSA)) /\
+  g_library_rule = PAnd (PAnd (PEnds s_class) (PNot (PStarts s_minecraft))) (PContains cSLASH).
+Proof. exact (conj (proj1 (proj2 (proj2 rules_today))) (proj1 (proj2 (proj2 (proj2 rules_today))))). Qed.
+Print Assumptions C13_rules_today.
+
+Theorem C13_signature_rule_spec : forall n,
+  is_signature n = true <->
+  (exists r, n = s_metainf ++ r) /\ ((exists p, n = p ++ s_SF) \/ (exists p, n = p ++ s_RSA)).
+Proof. exact signature_rule_spec. Qed.
+Print Assumptions C13_signature_rule_spec.
+
+Theorem C13_library_rule_spec : forall n,
+  is_server_library n = true <->
+  (exists p, n = p ++ s_class) /\ ~ (exists r, n = s_minecraft ++ r) /\ In cSLASH n.
+Proof. exact library_rule_spec. Qed.
+Print Assumptions C13_library_rule_spec.
+
+(* a class directly in the package net/minecraft or in a sub package, a class in the default
+   package, and anything that is not a *.class is never skipped as a bundled library *)
+Theorem C13_library_rule_never : forall n,
+  (exists r, n = s_minecraft ++ r) \/ ~ In cSLASH n \/ ~ (exists p, n = p ++ s_class) -> is_server_library n = false.
+Proof. exact library_rule_never. Qed.
+Print Assumptions C13_library_rule_never.
+
+(* what the library rule skips is a class entry of a zip archive (zip_impls.rs decides the kind by the
+   name: trailing '/' or '\' directory, .class class) *)
+Theorem C13_library_is_class : forall n, is_server_library n = true -> zip_kind n = KClass.
+Proof. exact library_is_class. Qed.
+Print Assumptions C13_library_is_class.
+
+(* net/minecraft/Bootstrap.class, Top.class, .class kept; net/minecraftx/E.class, net/minecraft.class,
+   a/.class bundled; META-INF/sub/Y.SF, META-INF/.SF signature files; META-INF/X.DSA, meta-inf/Z.SF,
+   X.SF not; … (Theory3.rule_examples) *)
+Theorem C13_rule_examples : rule_examples.
+Proof. exact rule_examples_hold. Qed.
+Print Assumptions C13_rule_examples.
+
+(* the verdict on a name is a function of the name and of which jars have it *)
+Theorem C13_name_verdict_spec : forall n inc ins,
+  match name_verdict n inc ins with
+  | VManifest => n = s_manifest
+  | VSignature => n <> s_manifest /\ is_signature n = true
+  | VLibrary => n <> s_manifest /\ is_signature n = false /\ inc = false /\ ins = true /\ is_server_library n = true
+  | VKept => n <> s_manifest /\ is_signature n = false /\ (inc = true \/ ins = false \/ is_server_library n = false)
+  end.
+Proof. exact name_verdict_spec. Qed.
+Print Assumptions C13_name_verdict_spec.
+
+(* the partition: every entry name of either jar lands in exactly one of {replaced manifest, kept,
+   skipped as signature file, skipped as bundled library}; the first two are in the merged jar
+   (once: its names are duplicate-free), the last two are not; nothing else is in the merged jar *)
+Theorem C13_entries_partition : forall (c s : jar) out,
+  NoDup (map e_name c) -> NoDup (map e_name s) -> merge_jar c s = OK out ->
+  NoDup (map o_name out) /\
+  (forall n, In n (map o_name out) -> In n (map e_name c) \/ In n (map e_name s)) /\
+  (forall n, In n (map e_name c) \/ In n (map e_name s) ->
+     match name_verdict n (memb str_eqb n (map e_name c)) (memb str_eqb n (map e_name s)) with
+     | VManifest | VKept => In n (map o_name out)
+     | VSignature | VLibrary => ~ In n (map o_name out)
+     end).
+Proof. exact entries_partition. Qed.
+Print Assumptions C13_entries_partition.
 
 (* ------------------------------------------------------------------------------------------
    jars *)
